@@ -739,6 +739,8 @@ func (g *goTr) tr(x ast.Expr, inOld bool) string {
 			return types.ExprString(x.Args[1]) + "(" + arg(0) + ")"
 		case "ite":
 			return "verifIte(" + arg(0) + ", " + arg(1) + ", " + arg(2) + ")"
+		case "cborTagWalk":
+			return "verifTagWalk(" + arg(0) + ")"
 		case "fresh", "refOf", "heapVer", "bytesVal", "mapVal", "allocBytes", "dynType", "typeTag", "visited", "inDom", "mapDom", "mapVals", "elems", "withField", "zeroExcept", "forallT", "existsT", "toInt", "toWide", "watermark", "sameStart":
 			return g.fail("built-in " + name + " has no executable counterpart")
 		}
@@ -1017,6 +1019,39 @@ func verifIte[T any](c bool, a, b T) T {
 		return a
 	}
 	return b
+}
+
+// verifTagWalk: the executable twin of the recursive spec function cbor_tagwalk (RFC 8949 tag heads).
+func verifTagWalk(b []byte) int {
+	for {
+		if len(b) == 0 {
+			return 0
+		}
+		h := b[0]
+		if h>>5 != 6 {
+			if h>>5 == 5 {
+				return 1
+			}
+			return 0
+		}
+		n := 1
+		switch ai := h & 0x1f; {
+		case ai >= 28:
+			return 2
+		case ai == 24:
+			n = 2
+		case ai == 25:
+			n = 3
+		case ai == 26:
+			n = 5
+		case ai == 27:
+			n = 9
+		}
+		if len(b) < n {
+			return 0
+		}
+		b = b[n:]
+	}
 }
 
 func TestVerifReplay(t *testing.T) {
